@@ -348,6 +348,8 @@ impl<T> NCReadStream<T> {
         let (lock, cv) = &*self.q;
         // TODO: attach tags.
         let ret = lock.lock().unwrap().pop_front().map(|v| (v, Vec::new()));
+        #[cfg(feature = "verif_hooks")]
+        crate::verif::moved(Arc::as_ptr(&self.q) as *const () as usize, ret.is_some() as usize);
         cv.notify_all();
         ret
     }
@@ -375,6 +377,8 @@ impl<T> NCWriteStream<T> {
         let (lock, cv) = &*self.q;
         // TODO: attach tags.
         lock.lock().unwrap().push_back(val);
+        #[cfg(feature = "verif_hooks")]
+        crate::verif::moved(Arc::as_ptr(&self.q) as *const () as usize, 1);
         cv.notify_all();
     }
 }
